@@ -26,6 +26,26 @@ def _held_via_acquire(fi, call, lock):
         all(cfg.must_pass([n], [cfg.exit, cfg.raise_exit], rel)[0] for n in ns)
 
 
+def simple_queue_io_under_lock(ctx, rule):
+    """SimpleQueue (the pool's task and result pipes): the receive / send of one message happens inside
+    `with <lock>`, so the lock is given back on every way out (a reader interrupted by a signal included)."""
+    m = ctx.model
+    for cq, meth, io, lock in (('queues:SimpleQueue', 'get_payload', 'self._reader.recv_bytes', 'self._rlock'),
+                               ('queues:SimpleQueue', 'send_payload', 'self._writer.send_bytes', 'self._wlock')):
+        fi = m.cls(cq).methods[meth]
+        ios = [(n, c) for (n, c) in q.calls(fi, io)]
+        q.need(ios, '%s.%s performs no I/O' % (cq, meth))
+        nolock = q.outcome_edges(fi, lock + ' is None', True)
+        ok = True
+        for (n, c) in ios:
+            if _in_with(fi, c, (lock,)):
+                continue
+            # allowed only on the arm where the lock does not exist
+            ok = ok and q.has_guard(fi, n, lock + ' is None', True)
+        ctx.ob(rule, 'SimpleQueue.%s:io-under-%s' % (meth, lock.split('.')[1]), ok, fi, ios[0][1],
+               '%s inside `with %s`' % (io, lock))
+
+
 def r16_1(ctx):
     ctx.rule('R16.1', 'a whole message is read under the reader lock and written under the writer lock; a lock is '
                       'released only by the thread that acquired it', floor=7)
@@ -51,20 +71,7 @@ def r16_1(ctx):
     emp = [x for x in cfg.where(lambda x: isinstance(x.ast, ast.Raise) and 'Empty' in ast.unparse(x.ast))]
     ok = any(x.id in r for x in emp)
     ctx.ob('R16.1', 'Queue.get:failed-acquire-raises-Empty', ok, qg, None, 'a failed acquire of the reader lock raises Empty')
-    for cq, meth, io, lock in (('queues:SimpleQueue', 'get_payload', 'self._reader.recv_bytes', 'self._rlock'),
-                               ('queues:SimpleQueue', 'send_payload', 'self._writer.send_bytes', 'self._wlock')):
-        fi = m.cls(cq).methods[meth]
-        ios = [(n, c) for (n, c) in q.calls(fi, io)]
-        q.need(ios, '%s.%s performs no I/O' % (cq, meth))
-        nolock = q.outcome_edges(fi, lock + ' is None', True)
-        ok = True
-        for (n, c) in ios:
-            if _in_with(fi, c, (lock,)):
-                continue
-            # allowed only on the arm where the lock does not exist
-            ok = ok and q.has_guard(fi, n, lock + ' is None', True)
-        ctx.ob('R16.1', 'SimpleQueue.%s:io-under-%s' % (meth, lock.split('.')[1]), ok, fi, ios[0][1],
-               '%s inside `with %s`' % (io, lock))
+    simple_queue_io_under_lock(ctx, 'R16.1')
     fd = m.func('queues:Queue._feed')
     P = fd.positional_params()
     sends = [(n, c) for (n, c) in q.calls(fd, P[2])]
